@@ -118,6 +118,9 @@ func canaryRead() string {
 	return "r"
 }
 
+// ColdEvery: run indices that are multiples of it are cold-start runs.
+const ColdEvery = 33 // (coprime with the worker count, so that the cold-start runs spread over all workers)
+
 const keptChangedMarker = "KEPT-VALUE-CHANGED-SINCE-DECODE: "
 
 // keptChanged scans results for the marker an inspect-kept operation leaves
@@ -131,6 +134,18 @@ func keptChanged(c *core.Ctx, phase string, plans []taskPlan, res [][]string) {
 					line = line[:i]
 				}
 				c.Fail("decoded-value", "C12/decoded-value-changed/"+gen.PathClass(line), "%s: task %d: %s: a value this task decoded earlier changed after later decode calls (its own or another task's): %s", phase, ti, plans[ti].ops[oi].name, line)
+			}
+		}
+	}
+}
+
+// resultAliases scans results for the marker an encoder operation leaves when
+// the bytes it returned share memory with the shared value.
+func resultAliases(c *core.Ctx, phase string, plans []taskPlan, res [][]string) {
+	for ti := range res {
+		for oi, r := range res[ti] {
+			if strings.Contains(r, aliasMarker) && !c.Failed() {
+				c.Fail("alias", "C12/result-shares-memory/"+opKind(plans[ti].ops[oi].name), "%s: task %d: the bytes returned by %s share memory with the value that was encoded: the operation itself writes nothing, but a caller that appends to or edits its own result writes into the shared value, and two such callers race", phase, ti, plans[ti].ops[oi].name)
 			}
 		}
 	}
@@ -185,7 +200,8 @@ func run(c *core.Ctx) {
 	defs := e.catalogue()
 	plans := make([]taskPlan, nTasks)
 	notDriven := 0
-	for ti := range plans {
+	buildTask := func(t *core.Tape, ti int) []*op {
+		var ops []*op
 		nOps := 1 + t.Draw(maxOps)
 		var later []*op
 		for oi := 0; oi < nOps; oi++ {
@@ -200,8 +216,10 @@ func run(c *core.Ctx) {
 						notDriven++
 					}
 				}
-			case x < 8:
+			case x < 7:
 				o = e.formatOp(t)
+			case x < 8:
+				o = e.genericOp(t)
 			default:
 				var insp *op
 				o, insp = decodeOp(t, ti)
@@ -212,11 +230,26 @@ func run(c *core.Ctx) {
 			if o == nil {
 				o = e.formatOp(t)
 			}
-			plans[ti].ops = append(plans[ti].ops, o)
+			ops = append(ops, o)
 		}
 		// values a task decoded and kept are looked at again after its other operations (and,
 		// under a schedule, after whatever the other tasks decoded in between)
-		plans[ti].ops = append(plans[ti].ops, later...)
+		return append(ops, later...)
+	}
+	coldRun := c.RunIndex%ColdEvery == 0
+	if coldRun {
+		// cold-start run: every task performs the SAME operations (each with its own instances), so
+		// that whatever the first of them initialises lazily is reached by several tasks at once
+		pos0 := len(t.Recorded())
+		plans[0].ops = append(e.coreOps(), buildTask(t, 0)...)
+		seg := t.Recorded()[pos0:]
+		for ti := 1; ti < nTasks; ti++ {
+			plans[ti].ops = append(e.coreOps(), buildTask(core.ReplayTape(seg), ti)...)
+		}
+	} else {
+		for ti := range plans {
+			plans[ti].ops = buildTask(t, ti)
+		}
 	}
 	if canary {
 		plans = []taskPlan{{ops: []*op{{name: "canaryWrite", run: canaryWrite}}}, {ops: []*op{{name: "canaryRead", run: canaryRead}}}}
@@ -236,6 +269,7 @@ func run(c *core.Ctx) {
 
 	// ---- O2 baseline, before anything touches the values
 	fpRoots = [2]any{v, w}
+	sharedBytes = gen.ByteRanges(v, w)
 	fpBase = gen.Fingerprint(v, w)
 	baseDump := gen.DumpLines([]any{v, w}, true)
 	fpViolated, fpOp = false, ""
@@ -282,11 +316,20 @@ func run(c *core.Ctx) {
 		finalizeAll(res)
 		return res, steps
 	}
+	// cold-start runs: every 33rd run index runs its concurrent phase FIRST, before any sequential
+	// pass; the parent starts a fresh child process at those indices (race batch), so that
+	// whatever the library initialises lazily on first use is initialised by racing tasks, not
+	// by the reference pass
+	cold := c.RunIndex%ColdEvery == 0 && !canary
+	if cold {
+		c.Probe("cold_start_run")
+	}
 	var ref, ref2 [][]string
 	taskSteps := make([]int64, nTasks)
-	if !canary {
+	if !canary && !cold {
 		ref, taskSteps = seqPass("sequential pass 1", true)
 		keptChanged(c, "sequential pass 1", plans, ref)
+		resultAliases(c, "sequential pass 1", plans, ref)
 		if c.Failed() {
 			finish(c, nil, nil)
 			return
@@ -313,13 +356,19 @@ func run(c *core.Ctx) {
 	if jf, ok := core.JournalFile.(*os.File); ok && jf != nil {
 		cfg.JournalFd = int(jf.Fd())
 	}
+	mode := c.Mode
+	if cold {
+		// no dry run yet: the policies that need its step counts are replaced by the random walk
+		total = 20000
+		mode = "random-walk"
+	}
 	switch {
 	case c.Replay:
 		cfg.Policy = sched.PolicyReplay
 		for _, sw := range c.Schedule {
 			cfg.Replay = append(cfg.Replay, sched.Switch2{Step: sw[0], Task: int(sw[1])})
 		}
-	case c.Mode == "preempt":
+	case mode == "preempt":
 		cfg.Policy = sched.PolicyPreempt
 		cfg.PreemptAt = make([][]int64, nTasks)
 		d := 1 + t.Draw(4)
@@ -332,7 +381,7 @@ func run(c *core.Ctx) {
 		for ti := range cfg.PreemptAt {
 			sortInt64(cfg.PreemptAt[ti])
 		}
-	case c.Mode == "site":
+	case mode == "site":
 		// preempt *inside each helper*: the preemption point is drawn uniformly over the distinct
 		// sites a task visits in the dry run (not over its steps, which favours hot loops), then
 		// over the occurrences of that site
@@ -365,7 +414,7 @@ func run(c *core.Ctx) {
 		for ti := range cfg.PreemptAt {
 			sortInt64(cfg.PreemptAt[ti])
 		}
-	case c.Mode == "pct":
+	case mode == "pct":
 		cfg.Policy = sched.PolicyPCT
 		d := 1 + t.Draw(3)
 		for i := 0; i < d; i++ {
@@ -375,6 +424,10 @@ func run(c *core.Ctx) {
 	default:
 		cfg.Policy = sched.PolicyRandomWalk
 		cfg.Denom = []int{4, 16, 64, 256}[t.Draw(4)]
+		if cold && cfg.Denom < 16 {
+			// every task runs the core operations plus the drawn ones: keep the number of switches in hand
+			cfg.Denom = 16
+		}
 	}
 	s, err := sched.New(cfg)
 	if err != nil {
@@ -425,7 +478,21 @@ func run(c *core.Ctx) {
 	if !c.Failed() && gen.Fingerprint(v, w) != fpBase {
 		reportWrite("after the join", "(some operation of the concurrent phase)")
 	}
+	if cold && !c.Failed() {
+		// the reference passes come after the concurrent phase in a cold-start run
+		ref, _ = seqPass("sequential pass 1 (after the cold concurrent phase)", true)
+		if !c.Failed() {
+			ref2, _ = seqPass("sequential pass 2", false)
+		}
+		if !c.Failed() {
+			if ti, oi := firstDiff(ref, ref2); ti >= 0 {
+				o := plans[ti].ops[oi]
+				c.Fail("sequential", "C12/second-call/"+opKind(o.name), "%s gives another result when called a second time on the same value: %q then %q", o.name, clip(ref[ti][oi]), clip(ref2[ti][oi]))
+			}
+		}
+	}
 	keptChanged(c, "under the schedule", plans, got)
+	resultAliases(c, "under the schedule", plans, got)
 	if !c.Failed() {
 		if ti, oi := firstDiff(ref, got); ti >= 0 {
 			o := plans[ti].ops[oi]
